@@ -455,8 +455,21 @@ func (c *Ctx) checkDefaultStores(rule string) {
 						}
 					}
 				}
+				// a scratch map made here that only ever receives defaults holds no supplied value to overwrite (the value
+				// that is worked out in it is an obligation again where it is stored into the working map)
+				scratch := false
+				if mk, isMake := mu.Map.(*ssa.MakeMap); isMake && mk.Referrers() != nil {
+					scratch = true
+					for _, ref := range *mk.Referrers() {
+						if other, isUpdate := ref.(*ssa.MapUpdate); isUpdate && other.Map == ssa.Value(mk) && !c.fromDefaults(other.Value, 0) {
+							scratch = false
+						}
+					}
+				}
 				if guarded {
 					c.R.Ok(rule, k, c.M.InstrPos(mu), "default applied", "dominated by a failed lookup of the same key in the same map: a supplied value is never overridden")
+				} else if scratch {
+					c.R.Ok(rule, k, c.M.InstrPos(mu), "default worked out", "stored into a map made in this function that receives nothing but defaults: there is no supplied value in it")
 				} else {
 					c.R.Bad(rule, k, c.M.InstrPos(mu), "a default can overwrite a supplied value", "the store of a default into the working map is not guarded by the key's absence")
 				}
@@ -471,7 +484,30 @@ func (c *Ctx) fromDefaults(v ssa.Value, depth int) bool {
 	}
 	switch x := v.(type) {
 	case *ssa.Call:
-		return c.calledMethodName(x) == "GetDefaults"
+		if c.calledMethodName(x) == "GetDefaults" {
+			return true
+		}
+		// a method of the object that works the value out of the defaults (what an unset property gets in its place)
+		if helper := core.StaticBody(&x.Call); helper != nil && depth < 3 && strings.HasPrefix(c.M.Key(helper), "schema.ObjectSchema.") {
+			for _, r := range core.ReturnsOf(helper) {
+				for i := range r.Results {
+					if c.fromDefaults(core.RetVal(r, i), depth+2) {
+						return true
+					}
+				}
+			}
+			// ... or through a scratch map it fills from them
+			for _, hb := range helper.Blocks {
+				for _, hin := range hb.Instrs {
+					if hmu, isUpdate := hin.(*ssa.MapUpdate); isUpdate && c.fromDefaults(hmu.Value, depth+2) {
+						if _, isMake := hmu.Map.(*ssa.MakeMap); isMake {
+							return true
+						}
+					}
+				}
+			}
+		}
+		return false
 	case *ssa.Lookup:
 		return c.fromDefaults(x.X, depth+1)
 	case *ssa.Extract:
@@ -482,6 +518,8 @@ func (c *Ctx) fromDefaults(v ssa.Value, depth int) bool {
 			if rg, ok := t.Iter.(*ssa.Range); ok {
 				return c.fromDefaults(rg.X, depth+1)
 			}
+		case *ssa.Call:
+			return c.fromDefaults(t, depth+1)
 		}
 	case *ssa.Phi:
 		for _, e := range x.Edges {
